@@ -557,7 +557,8 @@ Proof. reflexivity. Qed.
 Definition passes_le (c : nat) (new : list event) : Prop := forall n, In (ECtxPass n) new -> n <= c.
 
 (* the same plan without the cancellation *)
-Definition uncancelled (pl : plan) : plan := mkPlan (p_fault pl) None (p_entry pl) (p_deadline pl) (p_hs_ok pl).
+Definition uncancelled (pl : plan) : plan :=
+  mkPlan (p_fault pl) (p_class pl) None (p_entry pl) (p_deadline pl) (p_ctx_deadline pl) (p_hs_ok pl).
 
 (* an operation that succeeds under the cancelled plan succeeds without the cancellation *)
 Lemma op_ok_uncancelled pl w b : op_ok pl w b = true -> op_ok (uncancelled pl) w b = true.
